@@ -122,6 +122,34 @@ fn c13_special_plans(tier: Tier) -> Vec<Plan> {
         s.split_budget = 1;
         plans.push(Plan { scn: s, bound: tier.pick(2, 3) });
     }
+    // a command that printed output and then failed, followed by typed lists: nothing of the failed
+    // command's output may show up in the lists' frames
+    {
+        let s = Scenario::new(
+            "C13-lists-after-partial-failure",
+            vec![CallerProg { ops: vec![Op::Raw("partialfail X1".into()), Op::ProbeTuple(vec![31, 32]), Op::RawList(vec!["partialfail X2".into(), "cmd never".into()]), Op::ProbeVec(vec![41, 42, 43])], pipeline: false }, CallerProg { ops: vec![Op::Raw("cmd B1".into())], pipeline: false }],
+        );
+        plans.push(Plan { scn: s, bound: tier.pick(2, 3) });
+    }
+    // a list sent in the window right after a reply, over a transport whose writes stall while time
+    // passes: the block goes out whole or the caller is told it failed, never a truncated block
+    {
+        let mut s = Scenario::new(
+            "C13-list-in-the-reply-window-over-a-stalling-transport",
+            vec![CallerProg { ops: vec![Op::Raw("cmd A1".into()), Op::ProbeTuple(vec![21, 22, 23])], pipeline: false }],
+        );
+        s.stall_budget = 1;
+        s.tick_anywhere = true;
+        s.loose_tick_budget = 2;
+        s.long_tick_budget = 0;
+        plans.push(Plan { scn: s, bound: tier.pick(4, 5) });
+    }
+    // a long list is still one block (600 commands; default schedule and first deviations)
+    {
+        let mut s = Scenario::new("C13-vec600", vec![CallerProg { ops: vec![Op::ProbeVec((0..600u32).map(|i| 1000 + i).collect())], pipeline: false }, CallerProg { ops: vec![Op::Raw("cmd B1".into())], pipeline: false }]);
+        s.max_steps = 40;
+        plans.push(Plan { scn: s, bound: 1 });
+    }
     // an empty typed list is empty whatever state the connection is in (also after it has ended)
     {
         let mut s = Scenario::new(
@@ -542,6 +570,12 @@ fn c17_grid(tier: Tier) -> Vec<Scenario> {
         s.server.mime_only_in_first_chunk = true;
         v.push(s);
     }
+    // `readpicture` unknown to the server = ACK code 5, however the message is worded
+    for (k, wording) in ["Unsupported command 'readpicture'", "Unknown command: readpicture", "", "unknown  command"].into_iter().enumerate() {
+        let mut s = c17_scenario(&format!("C17-cover-after-unknown-readpicture-wording{k}"), PicSource::Ack(5), PicSource::Data(picture(5), None), 3, false);
+        s.server.unknown_command_wording = Some(wording.to_string());
+        v.push(s);
+    }
     v.push(c17_scenario("C17-neither", PicSource::Empty, PicSource::Empty, 8192, false));
     v.push(c17_scenario("C17-neither-readpicture-unknown", PicSource::Ack(5), PicSource::Empty, 8192, false));
     // every server error code of MPD's enum, on either command
@@ -558,9 +592,23 @@ fn c17_explore_scenarios() -> Vec<Scenario> {
     limit_change.callers[1] = CallerProg { ops: vec![Op::Raw("binarylimit 2".into()), Op::Raw("binarylimit 5".into())], pipeline: false };
     let mut short = c17_scenario("C17-explore-cover-size9-server-returns-short-pieces", PicSource::Ack(5), PicSource::Data(picture(9), None), 4, true);
     short.server.chunk_pattern = vec![4, 1, 3, 2];
+    // two callers load different multi-chunk pictures at the same time: the chunk requests
+    // interleave (A0 B0 A1 B1 ...), each caller gets its own picture
+    let mut concurrent = Scenario::new(
+        "C17-explore-two-callers-load-concurrently",
+        vec![CallerProg { ops: vec![Op::AlbumArt("first song.flac".into())], pipeline: false }, CallerProg { ops: vec![Op::AlbumArt("second.flac".into())], pipeline: false }],
+    );
+    concurrent.server.binary_limit = 4;
+    concurrent.server.per_uri = vec![
+        ("first song.flac".into(), PicSource::Data(picture(11), Some("image/png".into())), PicSource::Empty),
+        ("second.flac".into(), PicSource::Ack(5), PicSource::Data(picture(9).iter().map(|b| b ^ 0x55).collect(), None)),
+    ];
+    concurrent.max_steps = 400;
+    concurrent.split_budget = 1;
     vec![
         limit_change,
         short,
+        concurrent,
         c17_scenario("C17-explore-embedded-size7-limit3", PicSource::Data(picture(7), Some("image/png".into())), PicSource::Empty, 3, true),
         c17_scenario("C17-explore-cover-size5-limit2", PicSource::Ack(5), PicSource::Data(picture(5), None), 2, true),
     ]
